@@ -530,3 +530,56 @@ def c17(tier, seed):
     ck.assumptions = THREAD_ASSUMPTIONS
     ck.rule = 'a state = (configuration, existing prefixes, target pair); a transition = one complete interleaving; all interleavings enumerated'
     return ck.finish(prog)
+
+
+@prop('C18')
+def c18(tier, seed):
+    import itertools
+    from . import embedded
+    from .script import ScriptRunner, run_native, hx
+    from mirsym.engine import explore, Stats
+    ck = Check('C18', tier, seed)
+    prog = load_program(('embedded-fs',))
+    # encoder selftest for the RustEmbed model: fixed file sets, all observers, engine vs native (rust-embed reading a real folder)
+    u = embedded.UE()
+    mism, nlines, nscripts = 0, 0, 0
+    for files in ([], ['a.txt'], ['b/d.txt', 'b/e', 'c/é/h'], embedded.CANDIDATES):
+        lines = ['embedfile %s %s' % (hx(f.encode()), hx(bytes([65 + i] * (i % 3)))) for i, f in enumerate(files)] + ['fs R embed']
+        for n in u.nodes:
+            lines.append('join %s %s %s' % (n.var, 'R' if n.parent == 'R' else n.parent, hx(n.name.encode())))
+        for v in u.vars:
+            lines += ['exists %s' % v, 'metadata %s' % v, 'read_dir %s' % v, 'read %s 2' % v, 'is_dir %s' % v, 'create_dir %s' % v, 'remove_file %s' % v]
+        lines += ['walk_dir R', 'read_to_string atxt']
+        box = {}
+
+        def h(ex):
+            box['out'] = ScriptRunner(ex).run('\n'.join(lines))
+            return []
+        _, inc = explore(prog, h, Stats())
+        nat = run_native('\n'.join(lines), profile='embed')
+        nscripts += 1
+        nlines += len(lines)
+        if inc or box.get('out') != nat:
+            mism += 1
+            for a, b in zip(box.get('out') or [], nat):
+                if a != b:
+                    print('embedded selftest mismatch: engine %s | native %s' % (a, b))
+                    break
+            if inc:
+                print('embedded selftest inconclusive:', inc[0][:200])
+    ck.selftest = {'scripts': nscripts, 'lines': nlines, 'mismatches': mism, 'what': 'EmbeddedFS over the RustEmbed model vs rust-embed reading a real folder'}
+    sets = []
+    for r in range(len(embedded.CANDIDATES) + 1):
+        for c in itertools.combinations(embedded.CANDIDATES, r):
+            sets.append(list(c))
+    cases = [{'files': fs_} for fs_ in sets]
+    if tier == 'quick':
+        for c in cases:
+            c['mutators'] = ['create_dir', 'write', 'remove_file', 'remove_dir', 'create_dir_all', 'append', 'set_time_m']
+    ck.add(run_cases(prog, embedded.run_embedded_case, cases), 'every subset of the candidate embedded files: all observers on every path vs the implied tree; all mutators refused and nothing changed')
+    ck.bounds = {'embedded_file_sets': 'all %d subsets of %s' % (len(sets), embedded.CANDIDATES), 'file_bytes': '0..2 symbolic',
+                 'paths': 'every file, implied directory, the root, absent siblings, name prefixes, paths below files'}
+    ck.assumptions = COMMON_ASSUMPTIONS[:2] + ['the rust-embed derive and the compiled folder are replaced by a model of RustEmbed::iter/get (validated against rust-embed reading a real folder)',
+                                                'timestamps from embedded metadata are not modelled (None)']
+    ck.rule = 'a state = one embedded file set with symbolic bytes; transitions = execution paths over all observers and mutators on all universe paths'
+    return ck.finish(prog)
